@@ -97,7 +97,7 @@ func checkC14(c c14Case, o *Obs) error {
 func genC14(t *rapid.T) c14Case {
 	vc := varCase{Format: "gb"}
 	vc.Form = rapid.SampledFrom([]string{"msa", "msa", "sam"}).Draw(t, "form")
-	ao := annoGenOpts{minRef: 20, maxRef: ifThorough(300, 90), maxFeats: ifThorough(6, 4), iupacOutside: true}
+	ao := annoGenOpts{minRef: 20, maxRef: ifThorough(300, 90), maxFeats: ifThorough(6, 4), iupacOutside: true, twoProducts: true}
 	vc.GFF = gffOpts{SequenceRegion: rapid.Bool().Draw(t, "seqRegion"), WithFasta: true, GeneRows: rapid.Bool().Draw(t, "geneRows"), SortRows: rapid.Bool().Draw(t, "sortRows"), ParentAttr: rapid.IntRange(0, 2).Draw(t, "parentAttr") == 0}
 	switch rapid.IntRange(0, 2).Draw(t, "gffDialect") {
 	case 0:
